@@ -23,6 +23,10 @@ ASSUMPTIONS = ["out-of-contract histories (double del, del of an object owned by
                "block accounting counts only blocks allocated by the case's own thread"]
 
 prepare = gcx.prepare
+# Late-join cases depend on where the creating thread's join lands relative to the thread's teardown: a failing case
+# is re-run 10 times in fresh processes and reported if it fails again at least twice (on a tree where the property
+# holds the per-run failure probability is zero, not small).
+CONFIRM = (2, 10)
 
 
 @st.composite
@@ -40,7 +44,7 @@ def _case(draw):
     flags = {"owner_pair": False, "stop_del": False}
     n = draw(st.integers(2, 50))
     for _ in range(n):
-        o = draw(st.sampled_from(["new", "new", "newa", "copy", "del", "drop", "collect", "churn", "box", "boxchain", "boxcycle", "arrb", "stop", "start", "windel"]))
+        o = draw(st.sampled_from(["new", "new", "newa", "copy", "del", "drop", "collect", "churn", "box", "boxchain", "boxcycle", "arrb", "stop", "start", "windel", "bigchain"]))
         if o in ("new", "newa"):
             cls = draw(st.sampled_from(["m", "m", "m", "root", "raw"]))
             nobj += 1
@@ -153,6 +157,20 @@ def _case(draw):
             else:
                 kept[free[0]] = head
             flags["owner_pair"] = True
+        elif o == "bigchain" and not stopped and not flags.get("big"):
+            # thousands of objects that stay reachable until the end: the teardown sweep has real work to do
+            free = sorted(set(range(16)) - set(kept))
+            if not free:
+                continue
+            nobj += 1
+            h = nobj
+            L = draw(st.sampled_from([800, 3000, 6000]))
+            ops.append(["new", h, "node", "m"])
+            ops.append(["stk", free[0], h])
+            ops.append(["chain", h, 100000, L, 0])
+            kept[free[0]] = h
+            nodes.discard(h)
+            flags["big"] = True
         elif o == "boxcycle" and not stopped:
             # owners that form a cycle (B -> C -> B) entered from an outside owner T: everything is garbage at once and
             # the sweep (or an explicit del of T) meets the same object through two owners; it must still be finalised once
@@ -226,7 +244,10 @@ def _case(draw):
         for slot in sorted(kept):
             ops.append(["unstk", slot])
         ops.append(["collect"])
-    return {"ops": ops, "cfg": draw(st.sampled_from(["asan", "plain", "plain"])), "mode": draw(st.sampled_from(["thread", "thread", "thread", "main"]))}
+    # "joinlate": the creating thread joins only after the thread's function has returned (plus a spin): join must
+    # still wait for the teardown of the thread's collector.  A stimulus only; the oracle stays the ledger.
+    return {"ops": ops, "cfg": draw(st.sampled_from(["asan", "plain", "plain"])), "mode": draw(st.sampled_from(["thread", "thread", "thread", "main"])),
+            "joinlate": draw(st.sampled_from([-1, -1, 0, 3000, 100000, 3000000]))}
 
 
 def strategy(tier):
@@ -273,6 +294,9 @@ def encode(case):
         elif o == "churn":
             lines.append("churn %d %d" % (op[1], op[2]))
             expect.append(None)
+        elif o == "chain":
+            lines.append("chain %d %d %d %d" % (op[1], op[2], op[3], op[4]))
+            expect.append(None)
         else:
             raise HarnessBug(o)
     return lines, expect
@@ -283,6 +307,9 @@ def run_case(ctx, case):
     lines, expect = encode(case)
     lines = lines + ["fin"]
     expect = expect + [None]
+    if mode != "main" and case.get("joinlate", -1) >= 0:
+        lines = ["joinlate %d" % case["joinlate"]] + lines
+        expect = [None] + expect
     if mode == "main":
         ex = ctx.executor("ex_gc_" + case["cfg"], args=["--main"])
         obs = ex.run("\n".join(lines), fresh=True)
